@@ -14,6 +14,7 @@ import os
 
 from rustparse import parse_file, Untranslatable
 
+NAMES3 = ("ss", "ii", "si")
 GENERIC_NUM = {"1.": "(o1 o)", "1.0": "(o1 o)", "0.5": "(ohalf o)", "4.": "(ofour o)", "4.0": "(ofour o)", "2.": "(otwo o)",
                "2.0": "(otwo o)", "0.": "(o0 o)", "0.0": "(o0 o)"}
 REAL_NUM = {"1.": "1", "1.0": "1", "0.5": "(1 / 2)", "4.": "4", "2.": "2", "0.": "0"}
@@ -539,40 +540,129 @@ def gen_wrappers(repo, out):
                 f"  let min_rate := src_hom_rate g {n1} {n2} delta_t None in\n"
                 f"  (delta_t, {vis}).\n")
 
+    # ---- hom_two_source_time_delays: three blocks  { let fudge = (..wp - ..wp) / C_; let x_time = ..; let y_time = ..; x - y + fudge }
+    it = find_fn(items, "hom_two_source_time_delays", path)
+    c = Ctx(path, it)
+    out.span("spdc::hom::hom_two_source_time_delays", it)
+
+    def texpr(e, env):
+        e = strip(e)
+        k = e[0]
+        if k == "path" and e[1] == ["dim", "ucum", "C_"]:
+            return "light_c"
+        if k == "path" and len(e[1]) == 1 and e[1][0] in env:
+            return e[1][0]
+        if k == "field" and e[1][0] == "path" and e[1][1][0] in ("spdc1", "spdc2") and e[2] in ("signal_waist_position", "idler_waist_position"):
+            return f"({'sig_wp' if e[2].startswith('signal') else 'idl_wp'} {e[1][1][0]})"
+        if (k == "mcall" and e[2] == "average_transit_time" and e[1][0] == "field" and e[1][1][0] == "path"
+                and e[1][1][1][0] in ("spdc1", "spdc2") and e[1][2] in ("signal", "idler")):
+            who = e[1][1][1][0]
+            if e[3] != [("unary", "&", ("field", ("path", [who]), "crystal_setup")), ("unary", "&", ("field", ("path", [who]), "pp"))]:
+                c.fail("average_transit_time is not called with the same setup's crystal_setup and pp")
+            return f"({'sig_time' if e[1][2] == 'signal' else 'idl_time'} {who})"
+        if k == "bin" and e[1] in ("+", "-", "*", "/"):
+            return f"({texpr(e[2], env)} {e[1]} {texpr(e[3], env)})"
+        c.fail(f"time-delay expression outside the subset: {e!r}")
+
+    if [p_[0][1] for p_ in it.params] != ["spdc1", "spdc2"]:
+        c.fail("hom_two_source_time_delays parameters changed")
+    chans = {}
+    for s_ in it.body[1]:
+        if not (s_[0] == "let" and s_[1][0] == "pbind" and s_[1][1] in NAMES3 and s_[3][0] == "block"):
+            c.fail("hom_two_source_time_delays: statement is not `let ss|ii|si = { … }`")
+        env, lets = set(), []
+        for t_ in s_[3][1]:
+            if not (t_[0] == "let" and t_[1][0] == "pbind"):
+                c.fail("hom_two_source_time_delays: unsupported inner statement")
+            lets.append(f"let {t_[1][1]} := {texpr(t_[3], env)} in")
+            env.add(t_[1][1])
+        chans[s_[1][1]] = " ".join(lets) + " " + texpr(s_[3][2], env)
+    if sorted(chans) != sorted(NAMES3) or it.body[2] != ("struct", ["HomTwoSourceResult"], [(k, ("path", [k])) for k in NAMES3], None):
+        c.fail("hom_two_source_time_delays: result is not HomTwoSourceResult { ss, ii, si }")
+    body.append("(* hom_two_source_time_delays *)\n"
+                "Definition src_ts_time_delays (spdc1 spdc2 : ts_source) : R * R * R :=\n"
+                f"  (({chans['ss']},\n    {chans['ii']}),\n   {chans['si']}).\n")
+
+    # ---- hom_two_source_visibilities: both branches
     it = find_fn(items, "hom_two_source_visibilities", path)
     c = Ctx(path, it)
     out.span("spdc::hom::hom_two_source_visibilities", it)
+    if [p_[0][1] for p_ in it.params] != ["spdc1", "spdc2", "region1", "region2", "integrator"]:
+        c.fail("hom_two_source_visibilities parameters changed")
     t = it.body[2]
     if not (t[0] == "if" and t[1] == ("bin", "==", ("path", ["spdc1"]), ("path", ["spdc2"]))):
-        c.fail("hom_two_source_visibilities: not `if spdc1 == spdc2 {…} else {…}`")
-    blk = t[2]
+        c.fail("hom_two_source_visibilities: the identical-source test is not `spdc1 == spdc2` (structural equality)")
     zero = ("bin", "*", ("num", "0.", None), ("path", ["S"]))
     js = lambda x: ("unary", "&", ("mcall", ("path", [x]), "joint_spectrum", [("path", ["integrator"])]))
-    want_call = ("call", ("path", ["hom_two_source_rate_series"]),
-                 [js("spdc1"), js("spdc2"), ("path", ["region1"]), ("path", ["region2"]), ("call", ("path", ["Steps"]), [zero, zero, ("num", "1", None)])])
-    if not (len(blk[1]) == 1 and blk[1][0] == ("let", ("pbind", "min_rate", False), None, want_call)):
+
+    def series_call(d0, d1):
+        return ("call", ("path", ["hom_two_source_rate_series"]),
+                [js("spdc1"), js("spdc2"), ("path", ["region1"]), ("path", ["region2"]), ("call", ("path", ["Steps"]), [d0, d1, ("num", "1", None)])])
+
+    blk = t[2]
+    if not (len(blk[1]) == 1 and blk[1][0] == ("let", ("pbind", "min_rate", False), None, series_call(zero, zero))):
         c.fail("hom_two_source_visibilities: identical branch does not call hom_two_source_rate_series(js1, js2, region1, region2, Steps(0, 0, 1))")
-    res = blk[2]
-    if not (res[0] == "struct" and res[1] == ["HomTwoSourceResult"] and [f for f, _ in res[2]] == ["ss", "ii", "si"]):
-        c.fail("hom_two_source_visibilities: result struct changed")
-    comps = []
-    for fname, e in res[2]:
-        if not (e[0] == "tuple" and len(e[1]) == 2 and e[1][0] == zero):
-            c.fail("hom_two_source_visibilities: result component is not (0 s, …)")
-        v = e[1][1]
-        # (0.5 - min_rate.<f>[0]) / 0.5
+
+    def vis_expr(v, names):
         def sub(x):
             x = strip(x)
-            if x[0] == "index" and x[1][0] == "field" and x[1][1] == ("path", ["min_rate"]) and x[2] == ("num", "0", None):
-                return ("path", ["rate_" + x[1][2]])
+            if x[0] == "index" and x[1][0] == "field" and x[1][1] == ("path", ["min_rate"]) and x[2] == ("num", "0", None) and x[1][2] in NAMES3:
+                return ("path", ["min_rate_" + x[1][2]])
             if x[0] == "bin":
                 return ("bin", x[1], sub(x[2]), sub(x[3]))
             return x
-        comps.append(rexpr(c, sub(v), {"rate_ss": "rate_ss", "rate_ii": "rate_ii", "rate_si": "rate_si"}))
-    body.append("(* hom_two_source_visibilities, branch spdc1 == spdc2: one series call at delay 0, then the three visibilities *)\n"
+        return rexpr(c, sub(v), names)
+
+    sel = {"ss": "(fst (fst {}))", "ii": "(snd (fst {}))", "si": "(snd {})"}
+    res = blk[2]
+    if not (res[0] == "struct" and res[1] == ["HomTwoSourceResult"] and [f for f, _ in res[2]] == list(NAMES3)):
+        c.fail("hom_two_source_visibilities: result struct changed")
+    same_comps = []
+    for fname, e in res[2]:
+        if not (e[0] == "tuple" and len(e[1]) == 2 and e[1][0] == zero):
+            c.fail("hom_two_source_visibilities: identical branch: result component is not (0 s, …)")
+        names = {"min_rate_" + k: sel[k].format("min_rate") for k in NAMES3}
+        same_comps.append(f"(0, {vis_expr(e[1][1], names)})")
+    # else branch
+    eb = t[3]
+    if not (eb and eb[0] == "block" and len(eb[1]) == 4
+            and eb[1][0] == ("let", ("pbind", "time_delays", False), None, ("call", ("path", ["hom_two_source_time_delays"]), [("path", ["spdc1"]), ("path", ["spdc2"])]))):
+        c.fail("hom_two_source_visibilities: else branch does not start with `let time_delays = hom_two_source_time_delays(spdc1, spdc2)`")
+    else_lets = []
+    for s_ in eb[1][1:]:
+        ok = (s_[0] == "let" and s_[1][0] == "pbind" and s_[3][0] == "index" and s_[3][2] == ("num", "0", None) and s_[3][1][0] == "field"
+              and s_[3][1][2] in NAMES3 and s_[3][1][1][0] == "call")
+        if not ok:
+            c.fail("hom_two_source_visibilities: else branch: `let min_xx = hom_two_source_rate_series(…).xx[0]` expected")
+        call = s_[3][1][1]
+        dl = call[2][4] if len(call[2]) == 5 else None
+        if not (dl and dl[0] == "call" and dl[1] == ("path", ["Steps"]) and len(dl[2]) == 3 and dl[2][0] == dl[2][1] and dl[2][2] == ("num", "1", None)
+                and dl[2][0][0] == "field" and dl[2][0][1] == ("path", ["time_delays"]) and dl[2][0][2] in NAMES3
+                and call == series_call(dl[2][0], dl[2][0])):
+            c.fail("hom_two_source_visibilities: else branch: the series call is not (js1, js2, region1, region2, Steps(time_delays.xx, time_delays.xx, 1))")
+        else_lets.append(f"let {s_[1][1]} := {sel[s_[3][1][2]].format('(rates ' + sel[dl[2][0][2]].format('time_delays') + ')')} in")
+    res = eb[2]
+    if not (res[0] == "struct" and res[1] == ["HomTwoSourceResult"] and [f for f, _ in res[2]] == list(NAMES3)):
+        c.fail("hom_two_source_visibilities: else branch: result struct changed")
+    else_comps = []
+    for fname, e in res[2]:
+        if not (e[0] == "tuple" and len(e[1]) == 2 and e[1][0][0] == "field" and e[1][0][1] == ("path", ["time_delays"]) and e[1][0][2] in NAMES3):
+            c.fail("hom_two_source_visibilities: else branch: result component is not (time_delays.xx, …)")
+        names = {k: k for k in ("min_ss", "min_ii", "min_si")}
+        else_comps.append(f"({sel[e[1][0][2]].format('time_delays')}, {rexpr(c, e[1][1], names)})")
+    body.append("(* hom_two_source_visibilities: `if spdc1 == spdc2 { … } else { … }`; [same] is the outcome of the test *)\n"
+                "Definition src_ts_visibilities (same : bool) (js1 js2 : R -> R -> cx R) (spdc1 spdc2 : ts_source)\n"
+                "    (ls1 li1 ls2 li2 : R * R) (n : nat) : (R * R) * (R * R) * (R * R) :=\n"
+                "  let rates := fun dt => src_ts_rates n (src_ts_tabulate js1 js2 ls1 li1 ls2 li2 n) (axes_grid ls1 li1 n) (axes_grid ls2 li2 n) dt in\n"
+                "  if same then\n    let min_rate := rates 0 in\n"
+                f"    ({same_comps[0]}, {same_comps[1]}, {same_comps[2]})\n"
+                "  else\n    let time_delays := src_ts_time_delays spdc1 spdc2 in\n    "
+                + "\n    ".join(else_lets) + "\n"
+                f"    ({else_comps[0]}, {else_comps[1]}, {else_comps[2]}).\n"
+                "(* the identical branch on one range, visibilities only *)\n"
                 "Definition src_ts_visibilities_identical (J : R -> R -> cx R) (ls li : R * R) (n : nat) : R * R * R :=\n"
-                "  let '(rate_ss, rate_ii, rate_si) := src_ts_rates n (src_ts_tabulate J J ls li ls li n) (axes_grid ls li n) (axes_grid ls li n) 0 in\n"
-                f"  ({comps[0]}, {comps[1]}, {comps[2]}).\n")
+                "  let v := src_ts_visibilities true J J (mkSrc 0 0 0 0) (mkSrc 0 0 0 0) ls li ls li n in\n"
+                "  (snd (fst (fst v)), snd (snd (fst v)), snd (snd v)).\n")
     return "\n".join(body)
 
 
